@@ -2,12 +2,18 @@
 Line-protocol driver for the s-expression reader (C20).
 -/
 import Ufw.Model.Sx
+import Ufw.Model.SxHeap
 import Driver.Loop
 
 open Ufw
 
 namespace Driver.Sx
-open Ufw.Model.Sx
+open Ufw.Model.Sx Ufw.Model.SxHeap
+
+/-- allocations made / released before the reader returns / held by the returned tree (Model/SxHeap) -/
+def heapStr (s : List Octet) : String :=
+  let h := parse_h s 0
+  s!" heap={h.allocs}/{h.freed}/{h.node.weight}"
 
 partial def showTree : Tree → String
   | .sym s => "S" ++ hexOf s
@@ -47,7 +53,7 @@ def stepLine (_ : Unit) (toks : List String) : Unit × String :=
       let r := sx_parse s 0
       -- the position is compared only on success (where the statement fixes it)
       let pos := if r.status == .success then s!" pos={r.pos}" else ""
-      s!"{statusStr r.status} tree={match r.node with | some t => showTree t | none => "-"}{pos}"
+      s!"{statusStr r.status} tree={match r.node with | some t => showTree t | none => "-"}{pos}{heapStr s}"
     | none => "bad-op"
   | ["sx.render", hex, tree] =>
     -- the generator says which tree the text renders: the spec view is that tree, complete consumption
@@ -55,7 +61,9 @@ def stepLine (_ : Unit) (toks : List String) : Unit × String :=
     | some s, some (t, []) =>
       let r := sx_parse s 0
       let pos := if r.status == .success then s!" pos={r.pos}" else ""
-      s!"{statusStr r.status} tree={match r.node with | some t => showTree t | none => "-"}{pos} ## success tree={showTree t} pos={s.length}"
+      -- spec view of the heap: a rendering costs exactly the allocations of its tree, none is released early
+      let w := (ofTree t).weight
+      s!"{statusStr r.status} tree={match r.node with | some t => showTree t | none => "-"}{pos}{heapStr s} ## success tree={showTree t} pos={s.length} heap={w}/0/{w}"
     | _, _ => "bad-op"
   | ["sx.deep", kind, n] =>
     -- deep nesting, a spec-level line (the model's list indexing is quadratic in the input length): n opening
